@@ -60,7 +60,8 @@ var c17Tricky = []struct{ text, kind string }{
 	{"'''tri  select 'x' from'''", "string"}, {"'''tri  \n\n\n\t select  \n'''", "string"},
 	{"/* select  from */", "block-comment"}, {"/* it's */", "block-comment"}, {"/* multi  \n\n\n \tselect  \n end */", "block-comment"}, {"/**/", "block-comment"}, {"/* \"open */", "block-comment"},
 	// bytes that are not valid UTF-8 inside literals and comments (data from another encoding): copied, never re-encoded
-	{"'a\xffb select'", "string"}, {"\"q\xfe from\"", "qident"}, {"/* \xc3 select */", "block-comment"}, {"$$\xe9t\xe9 where$$", "dollar"},
+	{"'a\xffb select'", "string"}, {"\"q\xfe from\"", "qident"}, {"/* \xc3 select */", "block-comment"}, {"$$\xe9t\xe9 where$$", "dollar"}, // typographic quotes delimit literals and names for the tokenizer, also mixed with the ASCII ones
+	{"\u2018select  from\u2019", "string"}, {"\u2018it\u2019\u2019s  select\u2019", "string"}, {"'it'\u2019s  where'", "string"}, {"\u00abfrom  x\u00bb", "string"}, {"\u201cmy  select\u201d", "qident"},
 }
 
 var c17LineComments = []string{"-- select  from", "-- it's", "--", "-- \"open", "-- /* where", "-- trailing note", "--select", "-- voil\u00e0", "-- \u00c5", "-- caf\xe9 select"}
